@@ -45,7 +45,7 @@ def ac_norm(e):
         if len(items) == 1:
             return items[0]
         return (type(e).__name__, tuple(sorted(items, key=repr)))
-    if isinstance(e, (p.LogicalOr, p.LogicalAnd, p.BitwiseOr, p.BitwiseAnd, p.BitwiseXor)):
+    if isinstance(e, (p.LogicalOr, p.LogicalAnd, p.BitwiseOr, p.BitwiseAnd, p.BitwiseXor, p.Min, p.Max)):
         return (type(e).__name__, tuple(sorted((ac_norm(c) for c in e.children), key=repr)))
     if isinstance(e, p.Subscript):
         idx = e.index
@@ -89,6 +89,10 @@ def patterns():
         # sums / products none of whose direct operands is a bare candidate variable (every operand must be paired up structurally)
         p.Sum((p.Call(f, (a,)), 2)), p.Product((2, p.Call(f, (a,)))), p.Call(f, (p.Sum((p.Call(g, (a,)), 1)), b)), p.Sum((p.Power(a, 2), 1)),
         p.Product((p.Sum((a, 1)), p.Sum((b, 2)))), p.Sum((p.Product((2, p.Call(f, (a,)))), p.Product((3, p.Call(f, (b,)))))),
+        # the remaining node types with a handler of their own or an alias (operands paired up by position)
+        p.Remainder(a, b), p.LeftShift(a, b), p.RightShift(a, 2), p.BitwiseNot(a), p.LogicalNot(a), p.BitwiseOr((a, b)), p.BitwiseXor((a, b, a)), p.BitwiseAnd((a, 3)),
+        p.LogicalOr((a, b)), p.LogicalAnd((a, p.Comparison(b, "<", 1))), p.Min((a, b)), p.Max((a, 2, b)), p.Lookup(a, "re"), p.Subscript(a, (b, 0)), p.Call(a, (b,)),
+        p.Sum((p.BitwiseNot(a), p.LeftShift(b, a))),
     ]
 
 
